@@ -32,7 +32,6 @@ import (
 	"sort"
 	"strconv"
 	"strings"
-	"sync"
 	"time"
 
 	"git.metabarcoding.org/obitools/obitools4/obitools4/pkg/obiapat"
@@ -463,8 +462,6 @@ func c11Replay(env *Env) {
 		seeds[i] = env.rng.Int63()
 	}
 	cmdEvery := env.optInt("cmdevery", 1) // run the binary on one group out of cmdEvery
-	var mu sync.Mutex
-	cmdRuns := 0
 	parallel(len(keys), 0, func(g int) {
 		if env.tooManyFailures() {
 			return
@@ -615,11 +612,7 @@ func c11Replay(env *Env) {
 		if bin == "" || p.Ef != p.Er {
 			return
 		}
-		mu.Lock()
-		cmdRuns++
-		run := cmdRuns%cmdEvery == 0
-		mu.Unlock()
-		if !run {
+		if (g+int(env.seed))%cmdEvery != 0 {
 			return
 		}
 		order := append([]int(nil), live...)
